@@ -68,25 +68,30 @@ func c15Main(specBytes []byte) {
 		panic(err)
 	}
 	if spec.BoundMs <= 0 {
-		spec.BoundMs = 30000
+		spec.BoundMs = 10000
 	}
+	bound := time.Duration(spec.BoundMs) * time.Millisecond
+	confirmed := 0
 	for _, c := range spec.Cases {
 		Start(c.ID)
-		res := c15Run(c, time.Duration(spec.BoundMs)*time.Millisecond)
-		if res.Stalled {
+		res := c15Run(c, bound)
+		if res.Stalled && confirmed >= 3 {
+			// three stalls were already confirmed by solo re-runs: further ones are not re-run and decide nothing
+			res.Problems = []string{"inconclusive|progress bound missed; not re-run (three stalls already confirmed in this batch): " + strings.Join(res.Problems, "; ")}
+		} else if res.Stalled {
 			// a missed progress bound is re-run once (cases run one at a time, so this is a solo re-run)
 			Start(c.ID + "/retry")
-			res2 := c15Run(c, time.Duration(spec.BoundMs)*time.Millisecond)
+			res2 := c15Run(c, bound)
 			res2.Retried = true
 			if !res2.Stalled && len(res2.Problems) == 0 {
-				res2.Problems = nil
-				res2.Stalled = false
-				res2.Class = res.Class
-				res = res2
-				res.Problems = []string{"inconclusive|progress bound missed once, not reproduced on the solo re-run"}
-			} else {
-				res = res2
+				res2.Problems = []string{"inconclusive|progress bound missed once, not reproduced on the solo re-run: " + strings.Join(res.Problems, "; ")}
+			} else if res2.Stalled {
+				confirmed++
+				if confirmed >= 3 {
+					bound = 2 * time.Second // later stalls cannot accuse any more, so do not wait long for them
+				}
 			}
+			res = res2
 		}
 		Emit(res)
 	}
@@ -427,16 +432,32 @@ func c15Run(c C15Case, bound time.Duration) (res C15Result) {
 	defer func() { res.DurationMs = time.Since(start).Milliseconds() }()
 	var st c15Stats
 	var mu sync.Mutex
+	var open []io.Closer
+	aborted := false
+	track := func(c io.Closer) {
+		mu.Lock()
+		open = append(open, c)
+		mu.Unlock()
+	}
+	// the first problem decides the case; everything is then torn down so the
+	// other pumps do not sit out their deadlines (their follow-up errors are ignored)
 	problem := func(p string, stalled bool) {
 		if p == "" {
 			return
 		}
 		mu.Lock()
-		res.Problems = append(res.Problems, p)
-		if stalled {
-			res.Stalled = true
+		if aborted {
+			mu.Unlock()
+			return
 		}
+		aborted = true
+		res.Problems = append(res.Problems, p)
+		res.Stalled = stalled
+		cs := open
 		mu.Unlock()
+		for _, c := range cs {
+			c.Close()
+		}
 	}
 	rng := rand.New(rand.NewSource(c.Seed))
 	ab := c15Data(c.Seed, "a2b", c.Len) // A = websocket side, B = far side
@@ -463,6 +484,7 @@ func c15Run(c C15Case, bound time.Duration) (res C15Result) {
 					return
 				}
 				defer a.Close()
+				track(a)
 				a.SetDeadline(deadline)
 			} else {
 				raw, _, err = websocket.DefaultDialer.DialContext(ctx, env.wsURL.String(), nil)
@@ -471,6 +493,7 @@ func c15Run(c C15Case, bound time.Duration) (res C15Result) {
 					return
 				}
 				defer raw.Close()
+				track(raw)
 				raw.SetReadDeadline(deadline)
 				raw.SetWriteDeadline(deadline)
 			}
@@ -482,6 +505,7 @@ func c15Run(c C15Case, bound time.Duration) (res C15Result) {
 				return
 			}
 			defer b.Close()
+			track(b)
 			b.SetDeadline(deadline)
 			var wg sync.WaitGroup
 			run := func(f func()) { wg.Add(1); go func() { defer wg.Done(); f() }() }
@@ -530,6 +554,7 @@ func c15Run(c C15Case, bound time.Duration) (res C15Result) {
 				return
 			}
 			defer a.Close()
+			track(a)
 			a.SetDeadline(deadline)
 			var raw *websocket.Conn
 			select {
@@ -539,6 +564,7 @@ func c15Run(c C15Case, bound time.Duration) (res C15Result) {
 				return
 			}
 			defer raw.Close()
+			track(raw)
 			raw.SetReadDeadline(deadline)
 			raw.SetWriteDeadline(deadline)
 			var wg sync.WaitGroup
